@@ -509,6 +509,9 @@ class Visitor(
         # the referenced instance is only used through its handle - the hints collected for a same-named bare table
         # of this context (e.g. the other side of a self join) do not apply to it
         self.context.tables = self.context.Tables()
+        if isinstance(source.instance, dsl.Origin):
+            # an origin (join) exposes all columns of its tables through the handle - any of them may be used
+            self.context.tables.select(*source.instance.features)
         try:
             super().visit_reference(source)
         finally:
